@@ -365,6 +365,11 @@ def EFib.words (F : EFib) : Nat :=
                 | _ => if lowerExplicit then F.n else 0
   coordWords + occEntries + payEntries
 
+/-- the class in which `getSize` raises instead of answering: a fiber without elements that is
+    U, or C above an explicit rank -/
+def EFib.sizeAsserts (F : EFib) : Bool :=
+  decide (F.n = 0) && (F.fmt == .U || (F.fmt == .C && (match F.next with | some g => g.explicit | none => false)))
+
 /-- the layout coordinates of a fiber: what a scan has to deliver, in order -/
 def EFib.layoutCoords (F : EFib) : List Int :=
   match F.fmt with
